@@ -13,4 +13,13 @@ CHECKS = {
         "design_ref": "DESIGN.md §4 C18",
     },
 }
+CHECKS["C13"] = {
+    "technique": "Lean 4 proof over M-Heap (invariant by induction over all operation lists; mark soundness/completeness/termination) + differential correspondence with the real Heap/Guard/Gc after every operation",
+    "text": "collect_exact (after a collection a slot is non-pooled iff reachable from a live guard), stats_exact, reachable_keeps_contents (for every history an object keeps its contents while reachable) "
+            "and inv_step/inv_run are Lean theorems over the model of Space/Guard/Gc; the marker's termination within its fuel is proved, not assumed. The model is compared with the real generic Heap<T> "
+            "on exhaustive short histories, random histories with stale handles/heap drop, and long histories crossing the 256-slot chunk and 16-guard pool boundaries; a python spec-level reference "
+            "additionally evaluates the property on the implementation's observations alone.",
+    "note": "Not shown by the proof: absence of undefined behaviour in the unsafe blocks (only the index arithmetic behind get_unchecked is a lemma); histories run in-process, so invalid accesses are visible only if they crash or corrupt observations.",
+    "design_ref": "DESIGN.md §4 C13",
+}
 NOT_YET = {}
